@@ -4,7 +4,7 @@ from .. import multigen
 KINDS = ["arc_full_sync", "arc_crossbeam", "ogre_arc_atomic", "ogre_arc_full_sync"]
 
 class C17(Prop):
-    pid = "C17"; prop_file = "C17.v"
+    pid = "C17"; prop_file = ["C17.v", "C10FS.v"]
     rule = ("cases: MAX_STREAMS 4, BUFFER_SIZE 8, 2-3 pre-existing listeners of which 1..all exist throughout (each driven as a task or polled by its own thread), 1-2 producers "
             "(1-5 sends), ONE churn thread running 1-4 of {create a listener, drop a listener nobody else polls, poll a listener it created} with every shared access of "
             "create_stream_id / report_stream_dropped / sync_vacant_and_used_streams scheduled against the fan-out loops (sometimes a second thread creating a listener at the same time); "
